@@ -263,6 +263,10 @@ def spokes_oracle(tg, c):
 # ---------------------------------------------------------------- the check
 def run(ctx):
     ctx.source_hash("sigpy/mri/rf/trajgrad.py")
+    # tie by translation (DESIGN 2.8): gen/Gen_trap.v is regenerated from trajgrad.py (translate_all job "trap") and compiled;
+    # its lemmas state generated trap_grad / min_trap_grad == coq/model/Trap.v (for every RealOps, so on floats and on R)
+    from tools import translate_trap
+    tie_broken = translate_trap.tie(ctx)    # obligations "translate:sigpy/mri/rf/trajgrad.py (...)", "tie:generated == hand model (...)"
     proof_ok = ctx.prove("Prop_C20.v")
     core.import_sigpy()
     from sigpy.mri.rf import trajgrad as tg
@@ -369,7 +373,7 @@ def run(ctx):
     ctx.obligation("oracle:spokes_grad limits and k-space increments (%d cases)" % (n_sp - sp_na), sp_bad == 0)
 
     # something broke but no failing input yet: search more widely with the oracle (short waveforms, many draws)
-    if (not proof_ok or not corr_ok or failing) and not any(v["found_input"] for v in ctx.violations):
+    if (not proof_ok or not corr_ok or failing or tie_broken) and not any(v["found_input"] for v in ctx.violations):
         found = False
         for _ in range(ctx.n(4000, 60000)):
             fn = rng.choice(["trap_grad", "min_trap_grad"])
@@ -388,7 +392,7 @@ def run(ctx):
                 found = True
                 break
         if not found and not ctx.violations:
-            broken = getattr(ctx, "broken_proof", {"theorem": "corr:coq-run", "log": "; ".join(ctx.notes)[-1500:]})
+            broken = getattr(ctx, "broken_proof", tie_broken or {"theorem": "corr:coq-run", "log": "; ".join(ctx.notes)[-1500:]})
             ctx.violation("proof obligation no longer checks: %s" % broken.get("theorem"),
                           {"kind": "proof", "broken": broken}, found_input=False, signature="C20:proof")
 
@@ -431,7 +435,10 @@ def replay(obj):
 
 TRUSTED = [
     "Coq 8.16.1 kernel + vm_compute (no native_compute, no extraction); Coq Reals axioms as printed by Print Assumptions",
-    "hand model coq/model/Trap.v of trap_grad / min_trap_grad (line-by-line, one term for floats and for R), tied by this run's correspondence",
+    "hand model coq/model/Trap.v of trap_grad / min_trap_grad (line-by-line, one term for floats and for R), tied by this run's correspondence "
+    "and, since tools/translate_trap.py, by gen/Gen_trap.v: the two functions regenerated from the source text on every run with lemmas "
+    "gen_trap_grad_ok / gen_min_trap_grad_ok (generated = hand model, unfolding + case analysis + reflexivity); trusted there: the "
+    "translator's reading of the accepted Python fragment (notes/translate_trap.md)",
     "np.ceil/np.floor/np.sqrt/np.linspace(0,r,r+1)/np.sum/np.max/builtin sum as modelled in Trap.v "
     "(linspace samples exactly 0..r; sum left to right); lib/FloatRun.float_to_Z_ceil/floor, Z_to_float",
     "over R, ceil is `1 - up(-t)` (proved: t <= ceil t < t+1); the float ceil may differ from it when the real quotient is within "
